@@ -3,6 +3,7 @@ package props
 import (
 	"fmt"
 	"go/token"
+	"go/types"
 	"strings"
 
 	"golang.org/x/tools/go/ssa"
@@ -181,6 +182,32 @@ func runC13(c *Ctx) {
 			}
 		}
 		c.R.RequireMin("R13.7", "comparisons with the end of an accepted range", n7, 1)
+	}
+
+	// R13.8 the classifier owns its normaliser list: New copies the caller's slice (a variadic argument is the caller's
+	// array when called with fns...), so a later change of that array cannot change how registered and unknown texts are
+	// normalised
+	if nw := p.Func(scPkg, "New"); c.R.Anchor(nw != nil, "stringclassifier.New") {
+		e := eng.NewExplorer(p, core.RootMod)
+		ps := make([]eng.Prov, len(nw.Params))
+		for i, prm := range nw.Params {
+			if eng.PointerLike(prm.Type()) {
+				ps[i] = eng.Input
+			}
+		}
+		e.Run(nw, ps)
+		aliased := eng.Prov(0)
+		if clsT := p.Named(scPkg, "Classifier"); clsT != nil {
+			if st, ok := clsT.Underlying().(*types.Struct); ok {
+				for f := 0; f < st.NumFields(); f++ {
+					if _, isSl := st.Field(f).Type().Underlying().(*types.Slice); isSl {
+						aliased |= e.HeapOf(fmt.Sprintf("%s.#%d", types.TypeString(clsT, nil), f)) &^ eng.Fresh
+					}
+				}
+			}
+		}
+		c.R.Check(aliased == 0, "R13.8", "New keeps a private copy of the normaliser list", p.Pos(nw.Pos()), "every slice stored into the new classifier is allocated by New",
+			"a slice field of the new classifier has provenance "+aliased.String()+": it is the caller's array, so overwriting an element of the slice that was passed (to build a second classifier, say) changes how this classifier normalises - registered values no longer equal the normalised unknown text and verbatim copies are not found")
 	}
 
 	// R13.5 the raw unknown text is only ever normalised: every comparison, length and diff works on the normalised text
